@@ -114,7 +114,20 @@ OrderViews(m) == <<
    Cat(<<"l := [", m, "]", NL, "m := {}", NL, "for i, x := range l {", NL, "m[string(x) + \"_\" + string(i)] = x", NL, "}", NL, "print(m, keys(m))", NL, "for k, v := range m {", NL, "print(k, v)", NL, "}", NL, "m">>),
    Cat(<<"import json", NL, "s := {", m, "}", NL, "print(try(func() { return string(json.marshal(list(s))) }, func(e) { return string(e) }))", NL, "'{s}'">>)
  >>
+\* map literals written over several lines with the keys aligned in one column, effectful values and duplicate
+\* keys; maps pruned while they are iterated
+Effect == Cat(<<"func f(x) {", NL, "print(x)", NL, "return x", NL, "}", NL>>)
+MultiLine(entries) == Cat(<<Effect, "m := {", NL, Join(entries, "," \o NL), ",", NL, "}", NL, "print(m)", NL, "m">>)
+EntrySets == << <<"\"a\": f(1)", "\"b\": f(2)", "\"c\": f(3)", "\"d\": f(4)", "\"e\": f(5)", "\"f\": f(6)">>,
+                <<"\"a\": f(1)", "\"b\": f(2)", "\"a\": f(3)", "\"c\": f(4)", "\"b\": f(5)", "\"a\": f(6)">>,
+                <<"\"k9\": f(1)", "\"k1\": f(2)", "\"k5\": f(3)", "\"k3\": f(4)", "\"k7\": f(5)", "\"k2\": f(6)", "\"k8\": f(7)", "\"k4\": f(8)">>,
+                <<"  \"a\": f(1)", "  \"b\": [f(2), f(3)]", "  \"c\": {\"x\": f(4)}", "  \"d\": f(5)">> >>
+Prune(del, when) == Cat(<<"m := {\"a\": 1, \"b\": 2, \"c\": 3, \"d\": 4, \"e\": 5, \"f\": 6, \"g\": 7, \"h\": 8}", NL,
+                          "seen := []", NL, "for k, v := range m {", NL, "seen.append(k)", NL, "if k == \"", when, "\" {", NL,
+                          "delete(m, \"", del, "\")", NL, "}", NL, "}", NL, "print(seen, m)", NL, "seen">>)
 Order(u) == UNION {{OrderViews(Members[k])[j] : j \in 1..7} : k \in 1..Len(Members)}
+            \cup {MultiLine(EntrySets[k]) : k \in 1..Len(EntrySets)}
+            \cup {Prune(d, w) : d \in {"a", "b", "c"}, w \in {"b", "c", "d"}}
 
 \* ---------------------------------------------------------------- scale
 Sizes == {1, 2, 3, 9, 10, 11, 12, 16, 17, 33, 64, 99, 100, 101, 128, 129, 255, 256, 257, 300}
